@@ -74,11 +74,11 @@ def step (H : Str → Str) (s : State) : Op → StepRes
   | .fund a amt d =>
     if !validDenom d || amt ≤ 0 then { st := s, out := .err }
     else match decodeAcc a with
-      | some acc => { st := { s with bank := s.bank.credit acc d amt.toNat }, out := .ok "" }
+      | some acc => { st := { s with bank := s.bank.credit (.acct acc) d amt.toNat }, out := .ok "" }
       | none => { st := s, out := .err }
   | .fundPool amt d =>
     if !validDenom d || amt ≤ 0 then { st := s, out := .err }
-    else { st := { s with bank := s.bank.credit "pool" d amt.toNat, poolDenoms := if s.poolDenoms.contains d then s.poolDenoms else s.poolDenoms ++ [d] }, out := .ok "" }
+    else { st := { s with bank := s.bank.credit .pool d amt.toNat, poolDenoms := if s.poolDenoms.contains d then s.poolDenoms else s.poolDenoms ++ [d] }, out := .ok "" }
   | .setOwner c t o =>
     let k := (normalizeHex c, tokenValue t)
     let owners := match o with
